@@ -19,9 +19,9 @@ FUNCTIONS = ["RDMol2StereoMolGraph.smg_from_rdmol", "RDMol2StereoMolGraph.__call
              "_tbp_atom_order_permutation_dict", "_oct_atom_order_permutation_dict", "_rd_tetrahedral"]
 BOUNDS = {"quick": "one stereogenic unit: tetrahedral centre (4 ligands; 3 ligands + lone pair), square planar, trigonal bipyramidal, octahedral centre with pairwise distinct ligands, one "
                    "double bond XYC=CZW, one imine X-N=CYZ (lone pair; every choice of the atom with RDKit index 0); representation A: all neighbour orders for Tet/SP, strided for TBP/Oct, all labels; B: all labels under A's order, 12 other orders, "
-                   "3 RenumberAtoms permutations, 4 random SMILES spellings (seeded); option flags use_atom_map_number / stereo_complete / lone_pair_stereo",
-          "thorough": "all neighbour orders for TBP, 144 for Oct; 48 other orders"}
-OUTSIDE = ("molecules with several interacting stereo units, ring-cis inference, resonance merging on conjugated systems (RDKit C++ behaviour on whole molecules); "
+                   "3 RenumberAtoms permutations, 4 random SMILES spellings (seeded); option flags use_atom_map_number / stereo_complete / lone_pair_stereo; whole molecules with explicit H (20 SMILES: ring double bonds, allyl-type ions, carboxylate, amidinium, nitroalkene, dienes, one or two stereo units) imported with the from_rdmol defaults (resonance merging on) under 24 seeded RDKit renumberings each, and through a converter object reused across molecules vs a fresh one",
+          "thorough": "all neighbour orders for TBP, 144 for Oct; 48 other orders; 120 renumberings per molecule"}
+OUTSIDE = ("whole molecules other than the 20 listed ones (several interacting stereo units, ring-cis inference, resonance merging in general: RDKit C++ behaviour); "
            "'same stereoisomer' is what RDKit's canonical isomeric SMILES says")
 ASSUMPTIONS = ["RDKit 2024.09 canonical isomeric SMILES is a complete invariant of the stereoisomer for single-centre molecules (checked per run: the 2/3/20/30 labels under a fixed "
                "neighbour order give 2/3/20/30 distinct SMILES and each arrangement has |rotation group| representations)"]
@@ -243,6 +243,62 @@ def imine(first, ez, sa, oi):
     return None
 
 
+WHOLE = ["C1=CCCC1", "C1=CCCCC1", "CC1=CCC1", "C/C=C/[CH2+]", "C/C=C\\[CH2+]", "CC(=O)[O-]", "C/C=C/C", "C/C=C\\C", "CC(N)=[NH2+]", "C[C@H](F)Cl",
+         "c1ccccc1", "C/C=C/[O-]", "C1=CC=CCC1", "C/C=C/C=C/C", "[CH2-]/C=C/C", "C[C@@H](O)/C=C/C", "C1=C[CH+]C1", "O=C1C=CCC1", "C/C=C/[N+](=O)[O-]",
+         "F/C=C/C1=CCCC1"]
+WHOLE_BLOCK = 6
+_SHARED = {}
+
+
+def whole(m, blk):
+    """whole molecules (ring double bonds, delocalised ions, conjugated systems, one or two stereo units; explicit H) imported with the default
+    options of StereoMolGraph.from_rdmol (resonance merging on) under WHOLE_BLOCK seeded RDKit renumberings per call: every numbering must
+    import to the same graph up to the renaming (brute-force isomorphism oracle and the real ==); a converter object that is reused across
+    molecules must give what a fresh converter gives"""
+    import random
+    from stereomolgraph import StereoMolGraph
+    from stereomolgraph.rdmol2graph import RDMol2StereoMolGraph
+    from vp.lib import iso
+    smi = WHOLE[m]
+    mol0 = Chem.AddHs(Chem.MolFromSmiles(smi))
+    n = mol0.GetNumAtoms()
+    try:
+        g0 = StereoMolGraph.from_rdmol(mol0)
+    except Exception as e:
+        return f"{smi}: from_rdmol raised {type(e).__name__}: {e}"
+    s0 = gl.snap(g0)
+    if sorted(g0.atoms) != list(range(n)) or len(g0.bonds) != mol0.GetNumBonds():
+        return f"{smi}: imported graph has atoms {sorted(g0.atoms)} / {len(g0.bonds)} bonds, RDKit has {n} atoms / {mol0.GetNumBonds()} bonds"
+    for r in range(blk * WHOLE_BLOCK, (blk + 1) * WHOLE_BLOCK):
+        perm = list(range(n))
+        random.Random(1000 * m + r).shuffle(perm)
+        if r == 0:
+            perm = list(range(n))
+        mr = Chem.RenumberAtoms(mol0, perm)       # new atom i is old atom perm[i]
+        try:
+            gr = StereoMolGraph.from_rdmol(mr)
+        except Exception as e:
+            return f"{smi} renumbered {perm}: from_rdmol raised {type(e).__name__}: {e}"
+        back = gr.relabel_atoms({new: old for new, old in enumerate(perm)})
+        sb = gl.snap(back)
+        if sb["atoms"] != s0["atoms"] or {frozenset(k) for k in sb["bonds"]} != {frozenset(k) for k in s0["bonds"]}:
+            return f"{smi} renumbered {perm}: atoms / bonds of the import differ from the import of the original numbering"
+        if set(sb["bstereo"]) != set(s0["bstereo"]) or set(sb["astereo"]) != set(s0["astereo"]):
+            return (f"{smi} renumbered {perm}: stereo units differ: bonds {sorted(sb['bstereo'])} vs {sorted(s0['bstereo'])}, "
+                    f"atoms {sorted(sb['astereo'])} vs {sorted(s0['astereo'])}")
+        same = iso.isomorphic(gl.snap(gr), s0)
+        eq = (gr == g0)
+        if not same or not eq:
+            return f"{smi} renumbered {perm}: imported graph is {'not ' if not same else ''}isomorphic to the import of the original numbering (oracle), == says {eq}"
+        # converter reuse: one long-lived converter per option set vs a fresh one, identical snapshots expected
+        for res in (False, True):
+            conv = _SHARED.setdefault(res, RDMol2StereoMolGraph(resonance=res))
+            a, b = gl.snap(conv(mr)), gl.snap(RDMol2StereoMolGraph(resonance=res)(mr))
+            if a != b:
+                return f"{smi} renumbered {perm}: a reused converter (resonance={res}) imports differently from a fresh one: {gl.diff(b, a)}"
+    return None
+
+
 def plan(tier, seed):
     units = []
     for ki, kn in enumerate(KINDS):
@@ -254,6 +310,8 @@ def plan(tier, seed):
         if kn == "Oct":
             pre.append("oi % 120 == 7 and lab % 3 == 0" if tier == "quick" else "oi % 20 == 7")
         units.append(Sel(name=f"centre_{kn}", func="vp.props.C12:centre", params=params, pre=pre, shard_by=[], timeout=1500, nontrivial="oi > 0", min_shard=8))
+    units.append(Sel(name="whole_molecules", func="vp.props.C12:whole", params={"m": (0, len(WHOLE)), "blk": (0, 4 if tier == "quick" else 20)}, pre=[],
+                     shard_by=[], timeout=1500, nontrivial="blk > 0", min_shard=8))
     units.append(Sel(name="lonepair", func="vp.props.C12:lonepair", params={"oi": (0, 6), "lab": (0, 2)}, pre=[], shard_by=[], timeout=900))
     units.append(Sel(name="imine", func="vp.props.C12:imine", params={"first": (0, 4), "ez": (0, 2), "sa": (0, 2), "oi": (0, 24)},
                      pre=["oi % 6 == 0"] if tier == "quick" else [], shard_by=[], timeout=1500, min_shard=8))
